@@ -16,6 +16,8 @@ from . import adapters, digest, recipes
 PLOG_OPS = ["evaluate", "evaluate_propositions", "assume", "reduce", "negate", "errors", "flatten", "variables", "is_tautology",
             "is_contradiction", "equation_bounds", "to_json", "to_text", "to_short", "to_b64", "to_ge_polyhedron", "solve", "b64_roundtrip"]
 CFG_OPS = ["ge_polyhedron", "default_prios", "leafs", "select", "select_failing_solver", "add", "json_roundtrip"]
+# "select_builtin_solver" (no solver callable: puan_rspy's own beta solver) is implemented below but NOT drawn: the native solver does not
+# return on some generated models (shards were killed by the watchdog when it was tried), and a native loop cannot be timed out from Python
 DERIVING = {"assume", "reduce", "negate", "add", "json_roundtrip", "b64_roundtrip"}
 LAST = {}
 
@@ -124,6 +126,10 @@ def apply_op(obj, op, args):
         return obj.leafs(), None
     if op == "select":
         out = list(obj.select(*[dict(p) for p in args[0]], solver=exact_solver(), only_leafs=bool(args[1])))
+        return [dict(r) if isinstance(r, dict) else (dict(r[0]), r[1], r[2]) for r in out], None
+    if op == "select_builtin_solver":
+        # the library's own solver (no callable handed over): several requests per call, results pair with requests by position
+        out = list(obj.select(*[dict(p) for p in args[0]], only_leafs=bool(args[1])))
         return [dict(r) if isinstance(r, dict) else (dict(r[0]), r[1], r[2]) for r in out], None
     if op == "select_failing_solver":
         def failing(polyhedron, objectives):
